@@ -132,7 +132,7 @@ def run(ck):
     # ---- exhaustive small scope
     L.exhaustive(ck, 7 if thorough else 6, "whole", WHICH, THEOREMS_BC, rnd)
     for hk in sorted(L.HOOK_TABLES):
-        L.exhaustive(ck, 7 if thorough else 5, hk, WHICH, ["C06_exactly_once_reentrant", "C06_nothing_after_fired_reentrant"], rnd)
+        L.exhaustive(ck, 6 if thorough else 5, hk, WHICH, ["C06_exactly_once_reentrant", "C06_nothing_after_fired_reentrant"], rnd)
     if thorough:
         L.exhaustive(ck, 7, "split", WHICH, THEOREMS_BC, rnd)
         ck.coqchk(["AV.Props.C06"])
